@@ -73,7 +73,7 @@ def wf_violations(c, created, case, where):
 OPERANDS = {
     'int': 7, 'float': 2.5, 'bool': True, 'str': 'x',
     'list-ok': [1.0, 2.0, 3.0], 'list-short': [1.0, 2.0], 'list-long': [1.0, 2.0, 3.0, 4.0], 'tuple-ok': (4, 5, 6), 'range-ok': range(3),
-    'nested-ok-outer': [[1, 2], [3, 4], [5, 6]], 'nested-bad': [[1, 2, 3], [4, 5, 6]],
+    'nested-ok-outer': [[1, 2], [3, 4], [5, 6]], 'nested-bad': [[1, 2, 3], [4, 5, 6]], 'nested-size-n-col': [[1], [2], [3]], 'nested-size-n-row': [[1, 2, 3]],
     'np-ok': np.array([7.0, 8.0, 9.0]), 'np-short': np.array([1.0]), 'np-2d': np.ones((3, 2)), 'np-int-ok': np.array([1, 2, 3]),
     'list-str-ok': ['a', 'b', 'c'],
 }
@@ -110,7 +110,7 @@ def apply_op(c, op):
 
 def op_alphabet():
     ops = []
-    for v in ('int', 'float', 'list-ok', 'list-short', 'np-ok', 'np-2d', 'nested-ok-outer', 'nested-bad', 'list-str-ok', 'tuple-ok', 'range-ok'):
+    for v in ('int', 'float', 'list-ok', 'list-short', 'np-ok', 'np-2d', 'nested-ok-outer', 'nested-bad', 'nested-size-n-col', 'nested-size-n-row', 'list-str-ok', 'tuple-ok', 'range-ok'):
         ops.append(('add_variable', 'B', v))
         ops.append(('setattr', 'A', v))
         ops.append(('setitem', 'A', v))
@@ -537,6 +537,9 @@ class Reindex(BoundedCheck):
                 yield {'span': rnd.choice(list(pool)), 'new': [rnd.randint(-1, 5) for _ in range(rnd.randint(0, 5))], 'fills': rnd.choice(fills),
                        'strict': rnd.choice([None, True, False]), 'target': rnd.choice(['container', 'model'])}
         yield {'span': 'range', 'new': [1, 2, 3, 4], 'fills': {}, 'strict': None, 'target': 'pandas-mixin'}
+        for st_obj in (True, False):
+            for st_arg in (None, True, False):
+                yield {'span': 'range', 'new': [1, 2, 3, 4], 'fills': {'nosuch': 1}, 'strict': st_arg, 'target': 'pandas-mixin', 'object_strict': st_obj}
 
     def check(self, case, res: BoundedResult):
         import fsic
@@ -553,6 +556,18 @@ class Reindex(BoundedCheck):
                 NAMES = ENDOGENOUS
             m = PM(old)
             m.add_variable('K', 3, dtype=int)
+            if 'object_strict' in case:
+                m.strict = case['object_strict']
+                eff = m.strict if case['strict'] is None else case['strict']
+                try:
+                    m.reindex(new, strict=case['strict'], **case['fills'])
+                    raised = False
+                except KeyError:
+                    raised = True
+                if raised != bool(eff):
+                    out.append(Violation('unknown variables in the fill keywords are rejected only under strict (pandas extension)', 'c12.pandas-mixin-strict', case,
+                                         'KeyError' if eff else 'accepted', 'KeyError' if raised else 'accepted'))
+                return out
             r = m.reindex(new)
             if r.K.tolist() != [3, 3, 3, 0]:
                 out.append(Violation('pandas-based reindex with default arguments fills new periods with the dtype default', 'c12.pandas-mixin-int-fill', case,
